@@ -23,7 +23,9 @@ ID = 'C13'
 LEVEL = 'fault_enumeration'
 BUDGET = {'quick': 240, 'thorough': 2400}
 BLOCK = 250
-RULE = ('one run = one request through WsgiApplication under one cell of '
+RULE = ('one run = one request (in 30 % of the runs followed by a clean request '
+        'to the same instance, judged against a fresh instance with the same '
+        'fault-free history) through WsgiApplication under one cell of '
         '(request class x protocol pair x validator x Content-Length case x '
         'read plan x block_length x max_content_length x chunked x consumer '
         'plan x environ mode (all variables / empty ones omitted / mount point '
@@ -50,7 +52,11 @@ COMPONENTS = {
              'errors'],
 }
 ASSUMPTIONS = [
-    'single caller; the schedule is the gateway plan (reads, next, close)',
+    'single caller, one or two consecutive requests per instance; the '
+    'schedule is the gateway plan (reads, next, close)',
+    'the follow-up request is clean (full reads, honest Content-Length, '
+    'drained and closed); resources are parked in ctx.files by the first '
+    'request only',
     'negative CONTENT_LENGTH values are not generated (a non-numeric one is: '
     'wsgiref hands the header over verbatim)',
     'with an injected read error I1-I3 and the closing of the context are '
